@@ -279,6 +279,305 @@ def mergeCellPair (p : Pattern) (h : Heap) (a b : Ref) : Res :=
     | _, _ => (h, .error .typeError)
   | _, _ => (h, .error .typeError)
 
+
+/-! ## cells on the heap
+
+A cell object is `dict [("values", loc v), ("metadata", m)]`; `v` is the values dict (field ↦ number or
+array location); a metadata object is `dict [("details", loc d), …attributes…]`. The constructor
+`Cell(values=d, …)` stores the dict it is GIVEN (`self._values = values`): no copy. -/
+
+def mkCell (h : Heap) (values metadata : Ref) : Heap × Loc :=
+  h.alloc (.dict [("values", values), ("metadata", metadata)])
+
+/-- the values dict of a cell: its location and entries -/
+def cellValues (h : Heap) (c : Loc) : Option (Loc × List (String × Ref)) :=
+  match h.get c with
+  | some (.dict es) => match dictGet es "values" with
+    | some (.loc v) => match h.get v with
+      | some (.dict ev) => some (v, ev)
+      | _ => none
+    | _ => none
+  | _ => none
+
+def cellMeta (h : Heap) (c : Loc) : Ref :=
+  match h.get c with
+  | some (.dict es) => (dictGet es "metadata").getD .none
+  | _ => .none
+
+/-- `cell.replace(values=<new dict with these entries>)` as the fresh source does it: the new dict
+is allocated, `_base_replace` builds a fresh `attrs` dict and constructs a NEW cell around it. With a
+pattern whose target reaches a parameter (`cell.values[k] = …`, `attrs = self.__dict__`) the write
+goes into the ARGUMENT's values dict instead. -/
+def replaceValues (p : Pattern) (h : Heap) (c : Loc) (entries : List (String × Ref)) : Res :=
+  match cellValues h c with
+  | none => (h, .error .typeError)
+  | some (v, _) =>
+    if p.targetsFresh then
+      let (h1, nv) := h.alloc (.dict entries)
+      let (h2, nc) := mkCell h1 (.loc nv) (cellMeta h c)
+      (h2, .ok (.loc nc))
+    else (h.set v (.dict entries), .ok (.loc c))
+
+/-- `Cell._base_replace` / `Cell.replace(values=d)` with an existing dict `d`: the new cell holds `d` itself -/
+def cellReplace (p : Pattern) (h : Heap) (c : Loc) (values : Ref) : Res :=
+  match h.get c with
+  | some (.dict es) =>
+    if p.targetsFresh then
+      let (h1, nc) := mkCell h (values) (cellMeta h c)
+      (h1, .ok (.loc nc))
+    else (h.set c (.dict (dictSet es "values" values)), .ok (.loc c))     -- attrs = self.__dict__; attrs.update(..)
+  | _ => (h, .error .typeError)
+
+/-- `Cell.select(keys)`: `{k: v for k, v in self.values.items() if k in keys}` -/
+def cellSelect (p : Pattern) (h : Heap) (c : Loc) (keys : List String) : Res :=
+  match cellValues h c with
+  | none => (h, .error .typeError)
+  | some (_, ev) => replaceValues p h c (ev.filter fun e => keys.contains e.1)
+
+/-- `Cell.derive_fields(**definitions)` with already evaluated definitions: every step builds
+`{**cell.values, name: value}` and a new cell -/
+def cellDeriveFields (p : Pattern) (h : Heap) (c : Loc) : List (String × Ref) → Res
+  | [] => (h, .ok (.loc c))
+  | (name, value) :: rest =>
+    match cellValues h c with
+    | none => (h, .error .typeError)
+    | some (_, ev) =>
+      match replaceValues p h c (dictSet ev name value) with
+      | (h1, .ok (.loc c1)) => cellDeriveFields p h1 c1 rest
+      | (h1, .ok _) => (h1, .error .typeError)
+      | (h1, .error e) => (h1, .error e)
+
+/-- `Cell.add_statics(source_cell, fields)` -/
+def cellAddStatics (p : Pattern) (h : Heap) (c src : Loc) (fields : List String) : Res :=
+  match cellValues h c, cellValues h src with
+  | some (_, ev), some (_, es) => replaceValues p h c (dictUnion ev (es.filter fun e => fields.contains e.1))
+  | _, _ => (h, .error .typeError)
+
+/-- `_overwrite_values(cell1, cell2, suffix)`: `{**cell1.values, **replace_map}` -/
+def overwriteValues (p : Pattern) (h : Heap) (c1 c2 : Loc) (suffix : Option String) : Res :=
+  match cellValues h c1, cellValues h c2 with
+  | some (_, e1), some (_, e2) =>
+    let replaceMap := match suffix with
+      | some s => e2.map fun e => (e.1 ++ s, e.2)
+      | none => e2
+    replaceValues p h c1 (dictUnion e1 replaceMap)
+  | _, _ => (h, .error .typeError)
+
+/-- the comprehension `{k: f(k, v) for k, v in entries}`, threading the heap through `f` -/
+def mapEntries (f : Heap → String → Ref → Except Err (Heap × Ref)) (h : Heap) :
+    List (String × Ref) → Heap × Except Err (List (String × Ref))
+  | [] => (h, .ok [])
+  | (k, v) :: rest =>
+    match f h k v with
+    | .error e => (h, .error e)
+    | .ok (h1, r) => match mapEntries f h1 rest with
+      | (h2, .ok es) => (h2, .ok ((k, r) :: es))
+      | (h2, .error e) => (h2, .error e)
+
+/-- `v[ndxs]` for an array with more than one element: a NEW array; anything else: `v` itself -/
+def thinValue (ndxs : List Nat) (h : Heap) (_k : String) (v : Ref) : Except Err (Heap × Ref) :=
+  match v with
+  | .loc l => match h.get l with
+    | some (.arr d) =>
+      if d.length > 1 then
+        let (h1, l1) := h.alloc (.arr (ndxs.map fun i => d.getD i 0))
+        .ok (h1, .loc l1)
+      else .ok (h, v)
+    | _ => .ok (h, v)
+  | _ => .ok (h, v)
+
+/-- `_thin_cell(cell, ndxs)` -/
+def thinCell (p : Pattern) (h : Heap) (c : Loc) (ndxs : List Nat) : Res :=
+  match cellValues h c with
+  | none => (h, .error .typeError)
+  | some (_, ev) => match mapEntries (thinValue ndxs) h ev with
+    | (h1, .ok es) => replaceValues p h1 c es
+    | (h1, .error e) => (h1, .error e)
+
+/-- `v * exchange_rate if k in CURRENCY_FIELDS else v` (the product is a new object) -/
+def convertValue (fields : List String) (rate : Rat) (h : Heap) (k : String) (v : Ref) : Except Err (Heap × Ref) :=
+  if fields.contains k then binop (· * ·) h v (.scalar rate) else .ok (h, v)
+
+/-- `v *= exchange_rate` on an array location: in place -/
+def imulValue (fields : List String) (rate : Rat) (h : Heap) (k : String) (v : Ref) : Except Err (Heap × Ref) :=
+  if fields.contains k then
+    match v with
+    | .loc l => match h.get l with
+      | some (.arr d) => .ok (h.set l (.arr (d.map (· * rate))), v)
+      | _ => .error .typeError
+    | .scalar q => .ok (h, .scalar (q * rate))
+    | .none => .error .typeError
+  else .ok (h, v)
+
+/-- `_convert_cell_currency(cell, rate, target)`: converted values dict, `dataclasses.replace` of the
+metadata (a new metadata object), a new cell. A pattern with an `aug` target reaching the parameter
+(`v *= exchange_rate` on the loop variable) multiplies the argument's arrays in place. -/
+def convertCellCurrency (p : Pattern) (h : Heap) (c : Loc) (fields : List String) (rate : Rat) (currency : Ref) : Res :=
+  match cellValues h c with
+  | none => (h, .error .typeError)
+  | some (_, ev) =>
+    match mapEntries (if p.targetsFresh then convertValue fields rate else imulValue fields rate) h ev with
+    | (h1, .error e) => (h1, .error e)
+    | (h1, .ok es) =>
+      let metaEntries := match cellMeta h1 c with
+        | .loc m => match h1.get m with
+          | some (.dict em) => em
+          | _ => []
+        | _ => []
+      let (h2, nm) := h1.alloc (.dict (dictSet metaEntries "currency" currency))
+      let (h3, nv) := h2.alloc (.dict es)
+      let (h4, nc) := mkCell h3 (.loc nv) (.loc nm)
+      (h4, .ok (.loc nc))
+
+/-- one definition of `Cell.derive_metadata`: a top-level attribute (`dataclasses.replace(metadata,
+name=value)`: new metadata object, SAME details dict) or a detail key (`{**details, name: value}`: new
+details dict, new metadata object); then `_base_replace(metadata=new)`: a new cell. With a pattern
+that has a store reaching the parameter (`cell.metadata.details[name] = value` once `cell is not
+self`) the detail is written into the details dict of the current cell — which an earlier attribute
+definition left SHARED with the argument. -/
+def deriveMetadataStep (p : Pattern) (h : Heap) (self c : Loc) (name : String) (isAttr : Bool) (value : Ref) : Res :=
+  match cellMeta h c with
+  | .loc m => match h.get m with
+    | some (.dict em) =>
+      if isAttr then
+        let (h1, nm) := h.alloc (.dict (dictSet em name value))
+        let (h2, nc) := mkCell h1 ((cellValues h c).map (fun x => Ref.loc x.1) |>.getD .none) (.loc nm)
+        (h2, .ok (.loc nc))
+      else match dictGet em "details" with
+        | some (.loc d) => match h.get d with
+          | some (.dict ed) =>
+            if !p.targetsFresh && c != self then (h.set d (.dict (dictSet ed name value)), .ok (.loc c))
+            else
+              let (h1, nd) := h.alloc (.dict (dictSet ed name value))
+              let (h2, nm) := h1.alloc (.dict (dictSet em "details" (.loc nd)))
+              let (h3, nc) := mkCell h2 ((cellValues h c).map (fun x => Ref.loc x.1) |>.getD .none) (.loc nm)
+              (h3, .ok (.loc nc))
+          | _ => (h, .error .typeError)
+        | _ => (h, .error .typeError)
+    | _ => (h, .error .typeError)
+  | _ => (h, .error .typeError)
+
+/-- `Cell.derive_metadata(**definitions)` (definitions already evaluated): `(name, is top-level attribute, value)` -/
+def cellDeriveMetadata (p : Pattern) (h : Heap) (self c : Loc) : List (String × Bool × Ref) → Res
+  | [] => (h, .ok (.loc c))
+  | (name, isAttr, value) :: rest =>
+    match deriveMetadataStep p h self c name isAttr value with
+    | (h1, .ok (.loc c1)) => cellDeriveMetadata p h1 self c1 rest
+    | (h1, .ok _) => (h1, .error .typeError)
+    | (h1, .error e) => (h1, .error e)
+
+/-- `summarize_cell_values` for sum-type rules: per key the list `[cell.values.get(key) …]` (aliases
+or `None`) goes through `_conforming_sum`; the results are collected in a new dict -/
+def summarizeKeys (p : Pattern) (h : Heap) (cells : List (List (String × Ref))) :
+    List String → Heap × Except Err (List (String × Ref))
+  | [] => (h, .ok [])
+  | k :: ks =>
+    match conformingSum p h (cells.map fun ev => (dictGet ev k).getD .none) with
+    | (h1, .error e) => (h1, .error e)
+    | (h1, .ok r) => match summarizeKeys p h1 cells ks with
+      | (h2, .ok es) => (h2, .ok ((k, r) :: es))
+      | (h2, .error e) => (h2, .error e)
+
+def summarizeCellValues (p : Pattern) (h : Heap) (cells : List Loc) (keys : List String) : Res :=
+  let evs := cells.map fun c => ((cellValues h c).map (·.2)).getD []
+  match summarizeKeys p h evs keys with
+  | (h1, .error e) => (h1, .error e)
+  | (h1, .ok es) =>
+    let (h2, l) := h1.alloc (.dict es)
+    (h2, .ok (.loc l))
+
+/-- the accumulation `vals_dict[field] += val * py_share` of `_accident_quarter_to_policy_year_slice`
+over one cell's items: `vals_dict[field]` is read (missing ⇒ the `defaultdict(float)` zero), the
+product is a new object, `+=` rebinds a scalar / updates the accumulated array in place, the result
+is stored back into `vals_dict` -/
+def accumulateItems (h : Heap) (dl : Loc) (share : Rat) : List (String × Ref) → Heap × Except Err Unit
+  | [] => (h, .ok ())
+  | (field, val) :: rest =>
+    match h.get dl with
+    | some (.dict es) =>
+      match binop (· * ·) h val (.scalar share) with
+      | .error e => (h, .error e)
+      | .ok (h1, prod) =>
+        match iadd h1 ((dictGet es field).getD (.scalar 0)) prod with
+        | .error e => (h1, .error e)
+        | .ok (h2, r) =>
+          match h2.get dl with
+          | some (.dict es2) => accumulateItems (h2.set dl (.dict (dictSet es2 field r))) dl share rest
+          | _ => (h2, .error .typeError)
+    | _ => (h, .error .typeError)
+
+def accumulateCells (h : Heap) (dl : Loc) : List (List (String × Ref) × Rat) → Heap × Except Err Unit
+  | [] => (h, .ok ())
+  | (ev, share) :: rest =>
+    match accumulateItems h dl share ev with
+    | (h1, .ok ()) => accumulateCells h1 dl rest
+    | (h1, .error e) => (h1, .error e)
+
+/-- the `vals_dict` loop under its pattern: `vals_dict = defaultdict(float)` (fresh) or, with an
+initialiser reaching a parameter, the first cell's own values dict -/
+def aqpyAccumulate (p : Pattern) (h : Heap) (cells : List (Loc × Rat)) : Res :=
+  let items := cells.map fun cs => (((cellValues h cs.1).map (·.2)).getD [], cs.2)
+  let (h0, dl) :=
+    if (p.initOf "vals_dict").isFresh then h.alloc (.dict [])
+    else match cells.head? with
+      | some (c, _) => match cellValues h c with
+        | some (v, _) => (h, v)
+        | none => h.alloc (.dict [])
+      | none => h.alloc (.dict [])
+  match accumulateCells h0 dl items with
+  | (h1, .ok ()) => (h1, .ok (.loc dl))
+  | (h1, .error e) => (h1, .error e)
+
+/-- linear blend of one field: `Σ wᵢ·vᵢ` built from new objects only -/
+def linearBlend (h : Heap) (acc : Ref) : List (Ref × Rat) → Heap × Except Err Ref
+  | [] => (h, .ok acc)
+  | (v, w) :: rest =>
+    match binop (· * ·) h v (.scalar w) with
+    | .error e => (h, .error e)
+    | .ok (h1, prod) => match binop (· + ·) h1 acc prod with
+      | .error e => (h1, .error e)
+      | .ok (h2, acc') => linearBlend h2 acc' rest
+
+/-- the field loop of `blend_cells` (linear): `clean_values[field] = blend_samples(field_vals, …)`,
+a store into the dict `clean_values` -/
+def blendFields (h : Heap) (dl : Loc) (cells : List (List (String × Ref))) (weights : List Rat) :
+    List String → Heap × Except Err Unit
+  | [] => (h, .ok ())
+  | f :: fs =>
+    match linearBlend h (.scalar 0) ((cells.map fun ev => (dictGet ev f).getD .none).zip weights) with
+    | (h1, .error e) => (h1, .error e)
+    | (h1, .ok r) =>
+      match h1.get dl with
+      | some (.dict es) => blendFields (h1.set dl (.dict (dictSet es f r))) dl cells weights fs
+      | _ => (h1, .error .typeError)
+
+/-- `blend_cells(cells, weights, "linear", seed)`: `clean_values = {}` (or, under a pattern whose
+store reaches a parameter, the first cell's values dict), then `cells[0].replace(values=clean_values)` -/
+def blendCells (pb pr : Pattern) (h : Heap) (cells : List Loc) (weights : List Rat) : Res :=
+  match cells with
+  | [] => (h, .error .typeError)
+  | c0 :: _ =>
+    match cellValues h c0 with
+    | none => (h, .error .typeError)
+    | some (v0, ev0) =>
+      let evs := cells.map fun c => ((cellValues h c).map (·.2)).getD []
+      let (h0, dl) := if (pb.initOf "clean_values").isFresh then h.alloc (.dict []) else (h, v0)
+      match blendFields h0 dl evs weights (ev0.map (·.1)) with
+      | (h1, .error e) => (h1, .error e)
+      | (h1, .ok ()) => cellReplace pr h1 c0 (.loc dl)
+
+/-- `_weight_cell_values(cell, weights, subperiods)`: per sub-period a new dict of new values `v·wᵢ` -/
+def weightCellValues (h : Heap) (ev : List (String × Ref)) : List Rat → Heap × Except Err (List Ref)
+  | [] => (h, .ok [])
+  | w :: ws =>
+    match mapEntries (fun h _ v => binop (· * ·) h v (.scalar w)) h ev with
+    | (h1, .error e) => (h1, .error e)
+    | (h1, .ok es) =>
+      let (h2, l) := h1.alloc (.dict es)
+      match weightCellValues h2 ev ws with
+      | (h3, .ok ls) => (h3, .ok (.loc l :: ls))
+      | (h3, .error e) => (h3, .error e)
+
 /-! ## the frame -/
 
 /-- every location that existed at entry (`< n`) still holds the same object; in particular every
